@@ -229,6 +229,12 @@ func (c *VCtx) sharedHavoc(st *State, before *State) {
 				tt := T(SRef, t)
 				cur = Store(cur, tt, Select(old, tt))
 			}
+			// nor the objects and channels it has created and not yet made reachable
+			for _, r := range c.freshKeys {
+				if !c.isPublished(r) && !c.localAtomics[r.S] {
+					cur = Store(cur, r, Select(old, r))
+				}
+			}
 		}
 		st.heaps[g.heap] = c.name("h", cur)
 	}
